@@ -1,4 +1,4 @@
-"""KNOWN FINDING C15-reneging-dists-shared."""
+"""C15 (D31, formerly listed as finding C15-reneging-dists-shared; fixed by /repo 1834e65): a Sequential reneging distribution on a re-used Network."""
 import ciw
 N = ciw.create_network(
     arrival_distributions=[ciw.dists.Deterministic(1.0)], service_distributions=[ciw.dists.Deterministic(5.0)], number_of_servers=[1],
